@@ -481,7 +481,7 @@ fn check_sighash(p: &Psbt, s: &Setup, i: usize) -> Result<(), Failure> {
     Ok(())
 }
 
-/// (k) update_output_with_descriptor records the descriptor's scripts and taproot data, and
+/// (k) an input whose witness_utxo and non_witness_utxo disagree on the amount is refused by the updater untouched; update_output_with_descriptor records the descriptor's scripts and taproot data, and
 /// refuses (leaving the output untouched) when the output does not pay to the descriptor.
 fn check_output_update(s: &Setup, j: usize) -> Result<(), Failure> {
     let d = &s.descs[j];
@@ -531,6 +531,36 @@ fn check_output_update(s: &Setup, j: usize) -> Result<(), Failure> {
         }
     } else if o.tap_internal_key.is_some() || o.tap_tree.is_some() {
         return fail("output-update-taproot-fields", "taproot fields recorded for a non-taproot output".to_string());
+    }
+    Ok(())
+}
+
+/// (l) an input that carries both utxo forms must have them agree (script AND amount: the
+/// segwit digest commits to the amount) before the updater records anything.
+fn check_inconsistent_utxos(s: &Setup, i: usize) -> Result<(), Failure> {
+    let segwit = !matches!(s.descs[i], MDesc::Bare(_) | MDesc::Pkh(_) | MDesc::Sh(_));
+    if !segwit {
+        return Ok(());
+    }
+    let mut p = s.psbt.clone();
+    let vout = p.unsigned_tx.input[i].previous_output.vout as usize;
+    // find the previous transaction: setups with only witness_utxo get it attached here
+    let prev = match &p.inputs[i].non_witness_utxo {
+        Some(t) => t.clone(),
+        None => return Ok(()),
+    };
+    if prev.output.len() <= vout {
+        return Ok(());
+    }
+    let mut wrong = prev.output[vout].clone();
+    wrong.value = Amount::from_sat(wrong.value.to_sat() / 2 + 1);
+    p.inputs[i].witness_utxo = Some(wrong);
+    let before = p.inputs[i].clone();
+    if guard("update_input_with_descriptor", || p.update_input_with_descriptor(i, &s.libs[i]))?.is_ok() {
+        return fail(&format!("update-accepts-inconsistent-utxos/{}", s.descs[i].kind()), format!("input {}: witness_utxo states another amount than the previous transaction's output, update_input_with_descriptor accepts", i));
+    }
+    if p.inputs[i] != before {
+        return fail("update-failed-but-mutated", "a refused update (inconsistent utxos) changed the input".to_string());
     }
     Ok(())
 }
@@ -760,7 +790,7 @@ fn run(s: &Setup, ops: &[Op], rep: &mut Report, classes: bool) -> Result<Psbt, F
 impl Check for C14 {
     fn id(&self) -> &'static str { "C14" }
     fn rule(&self) -> String {
-        "case = PSBT with 1-3 inputs, each spending an output of a random sane definite descriptor (hex and xpub keys with origins; witness_utxo / non_witness_utxo as the type requires), all signatures made for the actual unsigned transaction; history = up to 14 operations from {update_input_with_descriptor(i), add signature k of input i, add preimages(i), add unknown field(i), finalize_mut, finalize_mall_mut, finalize_inp_mut(i), finalize_inp_mall_mut(i), extract}; a twin history with the add-operations of every run shuffled. Invariants after every step: newly final inputs validate in the reference interpreter (standardness flags) inside the actual transaction and carry no signing data; final inputs never change; a finalize that does not finalize an input leaves it deep-equal; finalize twice == once; finalize(_mall)_mut returns Ok exactly when every input is final afterwards and finalize_inp(_mall)_mut(i) exactly when input i is (already-final inputs are skipped, never errors); finalize_inp(_mall)_mut(i) leaves input i exactly as finalize(_mall)_mut would; the finalizer agrees with the descriptor's own satisfier holding exactly the input's signatures / preimages in the same transaction: same verdict (for inputs that carry their scripts and key origins) and same witness per mode (for taproot: the stack of the leaf used equals that leaf's satisfaction in that mode); after update: sighash_msg(i, leaf?) is the digest the input's ECDSA / key-path / leaf signatures verify against; update_output_with_descriptor records redeem / witness script, internal key and tap tree (leaf depths and scripts) of the descriptor and refuses an output that pays elsewhere without touching it; extract Ok => all inputs final and valid, transaction == unsigned tx + final fields, PSBT unchanged; after update: redeem/witness scripts, key origins (own BIP32), tap internal key / merkle root / control blocks / per-key leaf hashes equal the independent model; twin histories end in byte-identical PSBTs. Non-trivial = histories with a failing finalize followed by a successful one for the same input, or >= 2 finalize calls, or a reordered twin; distinct by (descriptors, history).".into()
+        "case = PSBT with 1-3 inputs, each spending an output of a random sane definite descriptor (hex and xpub keys with origins; witness_utxo / non_witness_utxo as the type requires), all signatures made for the actual unsigned transaction; history = up to 14 operations from {update_input_with_descriptor(i), add signature k of input i, add preimages(i), add unknown field(i), finalize_mut, finalize_mall_mut, finalize_inp_mut(i), finalize_inp_mall_mut(i), extract}; a twin history with the add-operations of every run shuffled. Invariants after every step: newly final inputs validate in the reference interpreter (standardness flags) inside the actual transaction and carry no signing data; final inputs never change; a finalize that does not finalize an input leaves it deep-equal; finalize twice == once; finalize(_mall)_mut returns Ok exactly when every input is final afterwards and finalize_inp(_mall)_mut(i) exactly when input i is (already-final inputs are skipped, never errors); finalize_inp(_mall)_mut(i) leaves input i exactly as finalize(_mall)_mut would; the finalizer agrees with the descriptor's own satisfier holding exactly the input's signatures / preimages in the same transaction: same verdict (for inputs that carry their scripts and key origins) and same witness per mode (for taproot: the stack of the leaf used equals that leaf's satisfaction in that mode); after update: sighash_msg(i, leaf?) is the digest the input's ECDSA / key-path / leaf signatures verify against; an input whose witness_utxo and non_witness_utxo disagree on the amount is refused by the updater untouched; update_output_with_descriptor records redeem / witness script, internal key and tap tree (leaf depths and scripts) of the descriptor and refuses an output that pays elsewhere without touching it; extract Ok => all inputs final and valid, transaction == unsigned tx + final fields, PSBT unchanged; after update: redeem/witness scripts, key origins (own BIP32), tap internal key / merkle root / control blocks / per-key leaf hashes equal the independent model; twin histories end in byte-identical PSBTs. Non-trivial = histories with a failing finalize followed by a successful one for the same input, or >= 2 finalize calls, or a reordered twin; distinct by (descriptors, history).".into()
     }
     fn lanes(&self, tier: Tier) -> Vec<(&'static str, usize, usize)> {
         match tier {
@@ -777,6 +807,7 @@ impl Check for C14 {
             }
         };
         check_output_update(&s, src.below(s.descs.len()))?;
+        check_inconsistent_utxos(&s, src.below(s.descs.len()))?;
         let ops = gen_ops(src, &s);
         rep.desc = format!("{} | {:?}", s.descs.iter().map(|d| d.print(true)).collect::<Vec<_>>().join(" ; "), ops);
         let end = run(&s, &ops, rep, true)?;
